@@ -34,6 +34,7 @@ func (e *FnExec) typeFacts(t types.Type, v *Term, st *State) *Term {
 		}
 	case "Slice":
 		return And(Le(IntLit(0), SLen(v)), Le(SLen(v), SCap(v)), Le(IntLit(0), SOff(v)), Lt(Root(SArr(v)), st.ctr),
+			Le(SCap(v), BigLit(new(big.Int).Sub(pow2(63), big.NewInt(1)))),
 			Imp(Eq(SArr(v), NilLoc), And(Eq(SLen(v), IntLit(0)), Eq(SCap(v), IntLit(0)))))
 	case "Loc":
 		return Lt(Root(v), st.ctr)
@@ -888,10 +889,40 @@ func (e *FnExec) next(st *State, x *ssa.Next) {
 }
 
 func (e *FnExec) send(st *State, x *ssa.Send) {
+	e.checkSendGuard(st, x.Pos())
 	e.note("channel send at %s: no effect on modelled state", e.pos(x.Pos()))
 }
 
+// checkSendGuard: a contract may state the condition under which the n-th channel send of the
+// function (plain or inside a select) may happen: guardcall send#n: <expr>.
+func (e *FnExec) checkSendGuard(st *State, pos token.Pos) {
+	if e.con == nil || e.con.Guards == nil {
+		return
+	}
+	e.guardN["send"]++
+	gk := fmt.Sprintf("send#%d", e.guardN["send"])
+	if g, ok := e.con.Guards[gk]; ok {
+		env := e.specEnv(st, pos)
+		t, err := env.boolExpr(g)
+		if err != nil {
+			e.errf("%v", err)
+			return
+		}
+		e.assert(st, "guardcall", t, pos, "channel "+gk+" only when "+g.Text, gk)
+		e.guardSeen[gk] = true
+	}
+}
+
 func (e *FnExec) selectStmt(st *State, x *ssa.Select) {
+	for _, s := range x.States {
+		if s.Dir == types.SendOnly {
+			p := s.Pos
+			if p == token.NoPos {
+				p = x.Pos()
+			}
+			e.checkSendGuard(st, p)
+		}
+	}
 	e.note("select at %s: nondeterministic choice, received values unconstrained", e.pos(x.Pos()))
 	e.setFresh(st, x, "select")
 	tv := e.vals[x]
